@@ -29,7 +29,8 @@ func init() {
 			"NOT decided: correctness of reflect, go/parser and astutil.Apply; semantic adequacy of the pattern parse (pgo); interaction of overlapping matches; which text ends up in the output (C03/C05)." +
 			" After F15: the recorded matches are replaced last-recorded first (innermost first)." +
 			" R9 also: the section splitter hands a line on as content[startOffset:offset] (untrimmed). R13 a half-applied change is never emitted (= C03-R11). Dispatch tables kept as data and higher-order loop helpers (collect / matchEach) are read through their summaries." +
-			" R14 the list search tries every position at which a section still fits (the candidate loop runs while i+len(want) <= len(got)); R15 an unterminated last line of the patch file is a line.",
+			" R14 the list search tries every position at which a section still fits (the candidate loop runs while i+len(want) <= len(got)); R15 an unterminated last line of the patch file is a line." +
+			" R16 nothing compiled from a node outlives the change (no write to the compiled program or to objects hanging off it).",
 		Trusted:     commonTrusted,
 		Assumptions: commonAssumptions,
 	})
@@ -67,6 +68,9 @@ func runC01(r *an.Run) {
 	relabel(r, "R4-recorded-run-is-skipped-run", "R14-the-list-search-tries-every-position")
 	relabel(r, "R5-search-completeness", "R14-the-list-search-tries-every-position")
 	unterminatedLastLineIsALine(r, "R15-an-unterminated-last-line-is-a-line")
+	// what a metavariable captured is compared with the code as it is now: nothing compiled from a node is kept
+	// beyond the change (a later change of the same patch meets the node after it was rewritten)
+	compiledProgramReadOnly(r, "R16-nothing-compiled-from-a-node-outlives-the-change")
 }
 
 const (
